@@ -85,6 +85,11 @@
        C16_s_source_pulled_once : the same count for Set (s_extend_loop).
 
    PARTLY COVERED / NOT COVERED BY A THEOREM
+     [The first item below is now CLOSED by the section "AUDIT CLOSURE" appended at the
+      end of this file: pull counts on the overflow exit (C16_*_full_pulls), the Set twin
+      C16_s_from_iter_pulled_once, the exact event log (C16_extend_loop_exact_log), the
+      general (non-empty start) versions C16_bulk_*_gen / C16_l_extend_sound, and a
+      precise account of what the list abstraction of the source hides (item 7 there).]
      - the pull count is stated for normal return only (panic postcondition True); the Set
        twin is now C16_s_source_pulled_once (for the loop s_extend_loop; there is no Set
        analogue of C16_from_iter_pulled_once: s_from_iter is `finally_drop` around that loop).
@@ -383,3 +388,381 @@ Example C16_example_run_set_extend :
   | _ => False
   end.
 Proof. vm_compute. split; reflexivity. Qed.
+
+(* ========================================================================== *)
+(* AUDIT CLOSURE (appended).  Proofs/Bulk.v (general lemmas that existed but were
+   not restated) and Proofs/MoreBulk.v (new).
+
+   4. Extend onto a NON-EMPTY container.  C16_bulk_lookup / _size / _uniq /
+      _overflow above start from the empty list [].  The general versions start
+      from any list l (the elems of the container being extended):
+        C16_bulk_lookup_gen  : class c maps, in the result, to
+              bulk_view ck c (lookup ck l c) items
+          where (C16_bulk_view_def)  bulk_view ck c start items  is
+              key   = the key object ALREADY STORED for c (start = Some (k0, _)),
+                      else the key object of the FIRST item of class c;
+              value = the value of the LAST item of class c,
+                      else the value already stored;
+              nothing if c is neither stored nor among the items.
+          So the stored key object of an existing key SURVIVES an Extend and its
+          value is replaced by the last one supplied.
+        C16_l_extend_sound   : keys stay pairwise different; the classes of the
+          result are exactly those of l plus those of the items.
+        C16_bulk_size_gen    : its length = number of DISTINCT classes of l and
+          items together (repeats - of stored keys too - consume no capacity).
+        C16_bulk_overflow_gen: overflow iff that number exceeds N.
+      Premise  Uniq ck l  (keys of the start pairwise different) holds of every
+      reachable container (Props/C01.v), and  length l <= N  is WF.
+   5. Set twin of C16_from_iter_pulled_once: C16_s_from_iter_pulled_once.
+   6. The pull count on the OVERFLOW exit: C16_extend_loop_full_pulls,
+      C16_from_iter_full_pulls, C16_s_extend_loop_full_pulls,
+      C16_s_from_iter_full_pulls: items = pre ++ x :: post, the container holds
+      what pre built, and the source was pulled exactly S (length pre) times:
+      once per stored item plus once for the overflowing one, and NOT AGAIN.
+   7. "consumed exactly once, front to back" - what is proved and what the list
+      abstraction hides.  In the model the source is NOT a function producing the
+      items: extend_loop takes the LIST [items] the source is going to yield plus
+      a hook  nx : T -> ans * T  that is called (call_next nx, logged as EvCall 1)
+      at every point where the loop calls Iterator::next(): once before each item
+      and once more after the last one (the call that returns None).  nx may
+      advance the callback state and may panic; its Yes/No answer is ignored.
+      Proved against this model:
+        - C16_extend_loop_exact_log: the EXACT event log of the loop.  It is
+              ext_evs E ck (elems) items ++ [EvCall 1]
+          i.e. for item 1, 2, ... in list order: ONE EvCall 1, then the Drop
+          events its insertion causes (C16_ext_evs_def), and after the last item
+          ONE more EvCall 1.  Hence item i is inserted after exactly i pulls and
+          before pull i+1 (front to back, no look-ahead, no re-pull); on overflow
+          the log ends with the pull of the overflowing item followed by Drop
+          events only: no pull is made after the overflow.
+        - C16_pulls_ext_evs: that log contains exactly one pull per item.
+      Hidden by the abstraction (closed by the correspondence check, not by a
+      theorem): (a) that the i-th item inserted IS the value returned by the
+      i-th call of next() - in the model the list is given, not produced by nx;
+      (b) that the loop stops calling next() at the first None (fusedness of the
+      source is not assumed by the crate; the model simply makes no call after
+      the final one); (c) that size_hint() is never relied upon.  The harness
+      closes these: its source `Src` (harness/src/ops.rs) wraps a Vec iterator,
+      bumps the call counter n_call in every next() (nx_cb / call_tick in
+      Model/Exec.v) and reports lying size hints; after every operation the
+      counter n_call is compared with the model's (token 8890), so one call too
+      many or too few - e.g. a second call after None - diverges; the container
+      contents compared after the call pin the item order.
+      C16_example_run_counter below shows the counter for 3 items: 4 calls.
+   8. Examples: C16_example_extend_nonempty (non-empty start, repeated key),
+      C16_example_overflow_midway (contents at the panic).
+   ========================================================================== *)
+Require Import Proofs.MoreBulk.
+
+(* -------------------------------------------------------------------------- *)
+(* 4. Bulk.bulk_view, bulk_lookup_gen, l_extend_sound, bulk_size_gen,
+   bulk_overflow_gen                                                           *)
+Theorem C16_bulk_view_def :
+  forall (K V : Type) (ck : K -> N) (c : N) (start : option (K * V)) (items : list (K * V)),
+    bulk_view ck c start items =
+    match (match start with Some (k0, _) => Some k0 | None => first_key ck c items end),
+          (match last_val ck c items with Some v => Some v | None => option_map snd start end) with
+    | Some k, Some v => Some (k, v)
+    | _, _ => None
+    end.
+Proof. reflexivity. Qed.
+Print Assumptions C16_bulk_view_def.
+
+(* l = the elems of the container being extended; "for repeated keys the last
+   value wins and the first key object is kept" where "first" includes the key
+   object already stored *)
+Theorem C16_bulk_lookup_gen :
+  forall (K V : Type) (ck : K -> N) (n : nat) (items l res : list (K * V)) (c : N),
+    l_extend ck n l items = Some res ->
+    lookup ck res c = bulk_view ck c (lookup ck l c) items.
+Proof. exact (@bulk_lookup_gen). Qed.
+Print Assumptions C16_bulk_lookup_gen.
+
+Theorem C16_l_extend_sound :
+  forall (K V : Type) (ck : K -> N) (n : nat) (items l res : list (K * V)),
+    l_extend ck n l items = Some res ->
+    Uniq ck l ->
+    Uniq ck res /\
+    forall c : N,
+      In c (List.map (fun p : K * V => ck (fst p)) res) <->
+      In c (List.map (fun p : K * V => ck (fst p)) l ++ List.map (fun p : K * V => ck (fst p)) items).
+Proof. exact (@l_extend_sound). Qed.
+Print Assumptions C16_l_extend_sound.
+
+(* "repeats do not consume capacity", repeats of already stored keys included *)
+Theorem C16_bulk_size_gen :
+  forall (K V : Type) (ck : K -> N) (n : nat) (items l res : list (K * V)),
+    l_extend ck n l items = Some res ->
+    Uniq ck l ->
+    length res =
+    length (nodup N.eq_dec (List.map (fun p : K * V => ck (fst p)) l ++
+                            List.map (fun p : K * V => ck (fst p)) items)).
+Proof. exact (@bulk_size_gen). Qed.
+Print Assumptions C16_bulk_size_gen.
+
+Theorem C16_bulk_overflow_gen :
+  forall (K V : Type) (ck : K -> N) (n : nat) (items l : list (K * V)),
+    Uniq ck l ->
+    length l <= n ->
+    (l_extend ck n l items = None <->
+     n < length (nodup N.eq_dec (List.map (fun p : K * V => ck (fst p)) l ++
+                                 List.map (fun p : K * V => ck (fst p)) items))).
+Proof. exact (@bulk_overflow_gen). Qed.
+Print Assumptions C16_bulk_overflow_gen.
+
+(* -------------------------------------------------------------------------- *)
+(* 5. MoreBulk.s_from_iter_pulled_once: collect / From<[T; N]> into a Set pulls
+   its source exactly length items + 1 times on normal return                  *)
+Theorem C16_s_from_iter_pulled_once :
+  forall (K Q T : Type) (E : env K unit Q T) (debug : bool) (ck : K -> N) (cq : Q -> N),
+    Lawful E ck cq ->
+    forall (nx : T -> ans * T) (items : list K) (w : world K unit T),
+      (forall s : T, fst (nx s) <> Boom) ->
+      WF (self w) ->
+      wp (s_from_iter E debug nx items)
+         (fun (_ : unit) (w' : world K unit T) =>
+            exists evs : list event,
+              log w' = log w ++ evs /\ length (filter is_pull evs) = S (length items))
+         (fun _ : world K unit T => True)
+         w.
+Proof. exact (@s_from_iter_pulled_once). Qed.
+Print Assumptions C16_s_from_iter_pulled_once.
+
+(* -------------------------------------------------------------------------- *)
+(* 6. pull counts on BOTH exits.  On overflow items = pre ++ x :: post with x the
+   overflowing item: the container holds what pre built and the log grew by
+   events containing exactly S (length pre) pulls (pre's, plus the one that
+   yielded x): the source is not called again while unwinding.                *)
+Theorem C16_extend_loop_full_pulls :
+  forall (K V Q T : Type) (E : env K V Q T) (debug : bool) (ck : K -> N) (cq : Q -> N),
+    Lawful E ck cq ->
+    forall (nx : T -> ans * T) (items : list (K * V)),
+      (forall s : T, fst (nx s) <> Boom) ->
+      forall w : world K V T,
+      WF (self w) ->
+      wp (extend_loop E debug nx items)
+         (fun (_ : unit) (w' : world K V T) =>
+            WF (self w') /\
+            cap (self w') = cap (self w) /\
+            l_extend ck (cap (self w)) (Spec.elems (self w)) items = Some (Spec.elems (self w')) /\
+            exists evs : list event,
+              log w' = log w ++ evs /\ length (filter is_pull evs) = S (length items))
+         (fun w' : world K V T =>
+            WF (self w') /\
+            cap (self w') = cap (self w) /\
+            l_extend ck (cap (self w)) (Spec.elems (self w)) items = None /\
+            exists (pre : list (K * V)) (x : K * V) (post : list (K * V)) (evs : list event),
+              items = pre ++ x :: post /\
+              l_extend ck (cap (self w)) (Spec.elems (self w)) pre = Some (Spec.elems (self w')) /\
+              log w' = log w ++ evs /\
+              length (filter is_pull evs) = S (length pre))
+         w.
+Proof. exact (@extend_loop_full_pulls). Qed.
+Print Assumptions C16_extend_loop_full_pulls.
+
+(* collect / From: res is the partial container at the overflow (destroyed by
+   the unwinding: C03_from_iter_overflow) *)
+Theorem C16_from_iter_full_pulls :
+  forall (K V Q T : Type) (E : env K V Q T) (debug : bool) (ck : K -> N) (cq : Q -> N),
+    Lawful E ck cq ->
+    forall (nx : T -> ans * T) (items : list (K * V)) (w : world K V T),
+      (forall s : T, fst (nx s) <> Boom) ->
+      WF (self w) ->
+      len (self w) = 0 ->
+      wp (from_iter E debug nx items)
+         (fun (_ : unit) (w' : world K V T) =>
+            exists evs : list event,
+              log w' = log w ++ evs /\ length (filter is_pull evs) = S (length items))
+         (fun w' : world K V T =>
+            exists (pre : list (K * V)) (x : K * V) (post res : list (K * V)) (evs : list event),
+              items = pre ++ x :: post /\
+              l_extend ck (cap (self w)) [] pre = Some res /\
+              log w' = log w ++ evs /\
+              length (filter is_pull evs) = S (length pre))
+         w.
+Proof. exact (@from_iter_full_pulls). Qed.
+Print Assumptions C16_from_iter_full_pulls.
+
+Theorem C16_s_extend_loop_full_pulls :
+  forall (K Q T : Type) (E : env K unit Q T) (debug : bool) (ck : K -> N) (cq : Q -> N),
+    Lawful E ck cq ->
+    forall (nx : T -> ans * T) (items : list K),
+      (forall s : T, fst (nx s) <> Boom) ->
+      forall w : world K unit T,
+      WF (self w) ->
+      wp (s_extend_loop E debug nx items)
+         (fun (_ : unit) (w' : world K unit T) =>
+            WF (self w') /\
+            cap (self w') = cap (self w) /\
+            l_extend ck (cap (self w)) (Spec.elems (self w)) (unit_items items) = Some (Spec.elems (self w')) /\
+            exists evs : list event,
+              log w' = log w ++ evs /\ length (filter is_pull evs) = S (length items))
+         (fun w' : world K unit T =>
+            WF (self w') /\
+            cap (self w') = cap (self w) /\
+            l_extend ck (cap (self w)) (Spec.elems (self w)) (unit_items items) = None /\
+            exists (pre : list K) (x : K) (post : list K) (evs : list event),
+              items = pre ++ x :: post /\
+              l_extend ck (cap (self w)) (Spec.elems (self w)) (unit_items pre) = Some (Spec.elems (self w')) /\
+              log w' = log w ++ evs /\
+              length (filter is_pull evs) = S (length pre))
+         w.
+Proof. exact (@s_extend_loop_full_pulls). Qed.
+Print Assumptions C16_s_extend_loop_full_pulls.
+
+Theorem C16_s_from_iter_full_pulls :
+  forall (K Q T : Type) (E : env K unit Q T) (debug : bool) (ck : K -> N) (cq : Q -> N),
+    Lawful E ck cq ->
+    forall (nx : T -> ans * T) (items : list K) (w : world K unit T),
+      (forall s : T, fst (nx s) <> Boom) ->
+      WF (self w) ->
+      len (self w) = 0 ->
+      wp (s_from_iter E debug nx items)
+         (fun (_ : unit) (w' : world K unit T) =>
+            exists evs : list event,
+              log w' = log w ++ evs /\ length (filter is_pull evs) = S (length items))
+         (fun w' : world K unit T =>
+            exists (pre : list K) (x : K) (post : list K) (res : list (K * unit)) (evs : list event),
+              items = pre ++ x :: post /\
+              l_extend ck (cap (self w)) [] (unit_items pre) = Some res /\
+              log w' = log w ++ evs /\
+              length (filter is_pull evs) = S (length pre))
+         w.
+Proof. exact (@s_from_iter_full_pulls). Qed.
+Print Assumptions C16_s_from_iter_full_pulls.
+
+(* -------------------------------------------------------------------------- *)
+(* 7. the order clause: the exact log.  pair_drops E p = the Drop events of the
+   pair p; ext_evs E ck l items = per item, in list order, one pull (EvCall 1)
+   followed by the Drop events its insertion causes (supplied key object and
+   displaced value when the key was already present; nothing otherwise).      *)
+Theorem C16_pair_drops_def :
+  forall (K V Q T : Type) (E : env K V Q T) (p : K * V),
+  pair_drops E p = ev_drops (idK E (fst p) ++ idV E (snd p)).
+Proof. reflexivity. Qed.
+Print Assumptions C16_pair_drops_def.
+
+Theorem C16_ext_evs_def :
+  forall (K V Q T : Type) (E : env K V Q T) (ck : K -> N) (l : list (K * V)),
+  ext_evs E ck l [] = [] /\
+  forall (k : K) (v : V) (rest : list (K * V)),
+    ext_evs E ck l ((k, v) :: rest) =
+    [EvCall 1] ++
+    match snd (l_insert ck l k v false) with
+    | Some (k', v0) => ev_drops (idK E k') ++ ev_drops (idV E v0)
+    | None => []
+    end ++
+    ext_evs E ck (fst (fst (l_insert ck l k v false))) rest.
+Proof. intros. split; reflexivity. Qed.
+Print Assumptions C16_ext_evs_def.
+
+Theorem C16_pulls_ext_evs :
+  forall (K V Q T : Type) (E : env K V Q T) (ck : K -> N) (items l : list (K * V)),
+  length (filter is_pull (ext_evs E ck l items)) = length items.
+Proof. exact (@pulls_ext_evs). Qed.
+Print Assumptions C16_pulls_ext_evs.
+
+Theorem C16_extend_loop_exact_log :
+  forall (K V Q T : Type) (E : env K V Q T) (debug : bool) (ck : K -> N) (cq : Q -> N),
+    Lawful E ck cq ->
+    forall (nx : T -> ans * T) (items : list (K * V)),
+      (forall s : T, fst (nx s) <> Boom) ->
+      forall w : world K V T,
+      WF (self w) ->
+      wp (extend_loop E debug nx items)
+         (fun (_ : unit) (w' : world K V T) =>
+            WF (self w') /\
+            cap (self w') = cap (self w) /\
+            l_extend ck (cap (self w)) (Spec.elems (self w)) items = Some (Spec.elems (self w')) /\
+            log w' = log w ++ ext_evs E ck (Spec.elems (self w)) items ++ [EvCall 1])
+         (fun w' : world K V T =>
+            WF (self w') /\
+            cap (self w') = cap (self w) /\
+            l_extend ck (cap (self w)) (Spec.elems (self w)) items = None /\
+            exists (pre : list (K * V)) (x : K * V) (post : list (K * V)),
+              items = pre ++ x :: post /\
+              l_extend ck (cap (self w)) (Spec.elems (self w)) pre = Some (Spec.elems (self w')) /\
+              find_idx ck (ck (fst x)) (Spec.elems (self w')) = None /\
+              length (Spec.elems (self w')) = cap (self w) /\
+              log w' = log w ++ ext_evs E ck (Spec.elems (self w)) pre ++ [EvCall 1] ++
+                                pair_drops E x ++ flat_map (pair_drops E) post)
+         w.
+Proof. exact (@extend_loop_overflow). Qed.
+Print Assumptions C16_extend_loop_exact_log.
+
+(* -------------------------------------------------------------------------- *)
+(* 8. Examples.  A non-empty start (2 of 3 slots: K1 class 5, K3 class 6) is
+   extended with items of classes 6, 7, 6: the key object ALREADY STORED for
+   class 6 (K3) is kept - not K11, the first of the items -, the LAST value for
+   class 6 (V18) wins, class 7 is appended, the repeats take no capacity.     *)
+Definition C16_m2 : map key vobj :=
+  {| len := 2; slots := [Some (k_ 1 5, v_ 2 7); Some (k_ 3 6, v_ 4 8); None] |}.
+Definition C16_items2 : list (key * vobj) := [(k_ 11 6, v_ 12 1); (k_ 13 7, v_ 14 2); (k_ 17 6, v_ 18 4)].
+
+Example C16_example_nonempty_start :
+  WF (self (w_of C16_m2)) /\ Uniq kcls (Spec.elems C16_m2) /\ length (Spec.elems C16_m2) <= 3.
+Proof.
+  split.
+  - split; [vm_compute; lia|]. intros i Hi. cbn [len w_of C16_m2 self] in Hi.
+    destruct i as [|[|i]]; try lia; eexists; reflexivity.
+  - split; [|vm_compute; lia]. unfold Uniq. vm_compute.
+    repeat constructor; cbn [In]; intuition discriminate.
+Qed.
+
+Example C16_example_extend_nonempty :
+  l_extend kcls 3 (Spec.elems C16_m2) C16_items2
+    = Some [(k_ 1 5, v_ 2 7); (k_ 3 6, v_ 18 4); (k_ 13 7, v_ 14 2)] /\
+  bulk_view kcls 6 (lookup kcls (Spec.elems C16_m2) 6) C16_items2 = Some (k_ 3 6, v_ 18 4) /\
+  bulk_view kcls 7 (lookup kcls (Spec.elems C16_m2) 7) C16_items2 = Some (k_ 13 7, v_ 14 2) /\
+  bulk_view kcls 5 (lookup kcls (Spec.elems C16_m2) 5) C16_items2 = Some (k_ 1 5, v_ 2 7) /\
+  bulk_view kcls 9 (lookup kcls (Spec.elems C16_m2) 9) C16_items2 = None.
+Proof. vm_compute. repeat split; reflexivity. Qed.
+
+(* the model run of that Extend, with the COUNTING source nx_cb: 4 calls of
+   next() for 3 items (n_call = 4); the log is ext_evs ++ [EvCall 1]: pull,
+   Drop of supplied key K11 and displaced V4, pull, pull, Drop of supplied key
+   K17 and displaced V12, final pull *)
+Example C16_example_run_counter :
+  extend_loop (env_map C16_sc0) false (nx_cb C16_sc0) C16_items2 (w_of C16_m2) =
+  Ok tt
+     {| cb := {| n_eq := 6; n_clone := 0; n_call := 4; next_id := 100000 |};
+        log := [EvCall 1; EvDrop 11; EvDrop 4; EvCall 1; EvCall 1; EvDrop 17; EvDrop 12; EvCall 1];
+        self := {| len := 3;
+                   slots := [Some (k_ 1 5, v_ 2 7); Some (k_ 3 6, v_ 18 4); Some (k_ 13 7, v_ 14 2)] |} |} /\
+  ext_evs (env_map C16_sc0) kcls (Spec.elems C16_m2) C16_items2 =
+    [EvCall 1; EvDrop 11; EvDrop 4; EvCall 1; EvCall 1; EvDrop 17; EvDrop 12].
+Proof. vm_compute. split; reflexivity. Qed.
+
+(* an overflow midway: the same start extended with classes 6, 7, 8, 5.  Item 3
+   (class 8) does not fit.  At the panic the container holds exactly what items
+   1-2 built; 3 pulls (not 5); item 3 (K15, V16) and the never-yielded item 4
+   (K17, V18) are destroyed once. *)
+Definition C16_items3 : list (key * vobj) :=
+  [(k_ 11 6, v_ 12 1); (k_ 13 7, v_ 14 2); (k_ 15 8, v_ 16 3); (k_ 17 5, v_ 18 4)].
+
+Example C16_example_overflow_midway :
+  l_extend kcls 3 (Spec.elems C16_m2) C16_items3 = None /\
+  match extend_loop (env_map C16_sc0) false (nx_cb C16_sc0) C16_items3 (w_of C16_m2) with
+  | Panic w' =>
+      Spec.elems (self w') = [(k_ 1 5, v_ 2 7); (k_ 3 6, v_ 12 1); (k_ 13 7, v_ 14 2)] /\
+      l_extend kcls 3 (Spec.elems C16_m2) [(k_ 11 6, v_ 12 1); (k_ 13 7, v_ 14 2)]
+        = Some (Spec.elems (self w')) /\
+      n_call (cb w') = 3%N /\
+      length (filter is_pull (log w')) = 3 /\
+      log w' = [EvCall 1; EvDrop 11; EvDrop 4; EvCall 1; EvCall 1;
+                EvDrop 15; EvDrop 16; EvDrop 17; EvDrop 18]
+  | _ => False
+  end.
+Proof. vm_compute. repeat split; reflexivity. Qed.
+
+(* Set: collect of 5 elements (classes 5,5,6,7,8) into capacity 2 overflows at
+   the 4th: 4 pulls; the repeated K3, the rejected K7, the never-yielded K9 and
+   the partial set {K1, K5} are destroyed once *)
+Example C16_example_set_overflow_midway :
+  match s_from_iter (env_set C16_sc0) false nx_none [k_ 1 5; k_ 3 5; k_ 5 6; k_ 7 7; k_ 9 8]
+                    {| cb := cs0; log := []; self := new_map 2 |} with
+  | Panic w' =>
+      log w' = [EvCall 1; EvCall 1; EvDrop 3; EvCall 1; EvCall 1; EvDrop 7; EvDrop 9; EvDrop 1; EvDrop 5]
+  | _ => False
+  end.
+Proof. vm_compute. reflexivity. Qed.
